@@ -110,22 +110,22 @@ def labelsOk (ls : List Nat) : Bool := ls.length ≥ 1 && ls.all (· < 1048576)
 /-- prefix length within the address width, address fits, label stack non-empty and the one-octet
     NLRI length field can hold labels + RD + prefix -/
 def nlriClause : Nlri → Option String
-  | .v4 a m => if m > 32 then some "bad-prefix-length" else if a ≥ 2 ^ 32 then some "bad-address" else none
-  | .v6 a m => if m > 128 then some "bad-prefix-length" else if a ≥ 2 ^ 128 then some "bad-address" else none
+  | .v4 a m => need (decide (m ≤ 32)) "bad-prefix-length" <| need (decide (a < 2 ^ 32)) "bad-address" none
+  | .v6 a m => need (decide (m ≤ 128)) "bad-prefix-length" <| need (decide (a < 2 ^ 128)) "bad-address" none
   | .lv4 ls a m =>
-      if m > 32 then some "bad-prefix-length" else if a ≥ 2 ^ 32 then some "bad-address"
-      else if !labelsOk ls ∨ ls.length * 24 + m > 255 then some "bad-label-stack" else none
+      need (decide (m ≤ 32)) "bad-prefix-length" <| need (decide (a < 2 ^ 32)) "bad-address" <|
+      need (labelsOk ls && decide (ls.length * 24 + m ≤ 255)) "bad-label-stack" none
   | .lv6 ls a m =>
-      if m > 128 then some "bad-prefix-length" else if a ≥ 2 ^ 128 then some "bad-address"
-      else if !labelsOk ls ∨ ls.length * 24 + m > 255 then some "bad-label-stack" else none
+      need (decide (m ≤ 128)) "bad-prefix-length" <| need (decide (a < 2 ^ 128)) "bad-address" <|
+      need (labelsOk ls && decide (ls.length * 24 + m ≤ 255)) "bad-label-stack" none
   | .vpn4 ls rd a m =>
-      if m > 32 then some "bad-prefix-length" else if a ≥ 2 ^ 32 then some "bad-address"
-      else if !labelsOk ls ∨ ls.length * 24 + 64 + m > 255 then some "bad-label-stack"
-      else if !rdOk rd then some "bad-rd" else none
+      need (decide (m ≤ 32)) "bad-prefix-length" <| need (decide (a < 2 ^ 32)) "bad-address" <|
+      need (labelsOk ls && decide (ls.length * 24 + 64 + m ≤ 255)) "bad-label-stack" <|
+      need (rdOk rd) "bad-rd" none
   | .vpn6 ls rd a m =>
-      if m > 128 then some "bad-prefix-length" else if a ≥ 2 ^ 128 then some "bad-address"
-      else if !labelsOk ls ∨ ls.length * 24 + 64 + m > 255 then some "bad-label-stack"
-      else if !rdOk rd then some "bad-rd" else none
+      need (decide (m ≤ 128)) "bad-prefix-length" <| need (decide (a < 2 ^ 128)) "bad-address" <|
+      need (labelsOk ls && decide (ls.length * 24 + 64 + m ≤ 255)) "bad-label-stack" <|
+      need (rdOk rd) "bad-rd" none
 
 def WFN (n : Nlri) : Prop := nlriClause n = none
 instance (n : Nlri) : Decidable (WFN n) := by unfold WFN; infer_instance
